@@ -286,7 +286,12 @@ def _consistent_indent(body: list[str]) -> bool:
     """Every dedent inside the block returns to an enclosing indentation level (lines inside a multi-line string aside)."""
     stack = [0]
     in_str = False
+    joined = False  # the line before ended in a backslash: this one starts no logical line, its indentation does not count
     for ln in body:
+        if joined:
+            joined = ln.endswith("\\")
+            continue
+        joined = ln.endswith("\\")
         if in_str:
             if "'''" in ln:
                 in_str = False
